@@ -132,6 +132,36 @@ pub fn run(r: &mut Runner) {
             rec.record(l, idx * 64 + k as u64, judge(op, a, b));
         }
     });
+    // ---- sparse factors x every low-word gap: the addend of the internal fma is then an exact power of two or a
+    // sparse value and the second product sits at any distance below it (ties / near-ties of the fma rounding)
+    {
+        let sp: Vec<u64> = run_bounded(52, 2).into_iter().chain([1u64, 1u64 << 26, (1u64 << 26) + 1, 1u64 << 25]).collect();
+        let gaps: Vec<i32> = (53..=112).collect();
+        let mops = [Op::mul_f, Op::f_mul, Op::mul, Op::mul_assign_f, Op::div_f, Op::add_f];
+        let ns = sp.len();
+        r.notes.push(format!("sparse factors: {} x {} fractions (run-bounded, 2^26+1 ...) x {} low-word gaps x 3 low-word mantissas x 2 signs; ops {:?}", ns, ns, gaps.len(), mops.iter().map(|o| o.name()).collect::<Vec<_>>()));
+        r.par("sparse factors x every low-word gap", ns, (ns * ns * gaps.len() * 6) as u64, |i, l| {
+            let ah = mk_f64(false, 27, sp[i]).unwrap();
+            let mut k = 0u64;
+            for &fb in &sp {
+                let bh = mk_f64(false, 27, fb).unwrap();
+                for &g in &gaps {
+                    for m in [1.0, 1.5, 1.25] {
+                        for s in [1.0, -1.0] {
+                            let lo = s * m * 2f64.powi(27 - g);
+                            if !tfref::big::dd_valid_fast(ah, lo) {
+                                continue;
+                            }
+                            for (j, &op) in mops.iter().enumerate() {
+                                rec.record(l, (3u64 << 52) + ((i as u64) << 32) + k * 8 + j as u64, judge(op, [ah, lo], [bh, 0.0]));
+                            }
+                            k += 1;
+                        }
+                    }
+                }
+            }
+        });
+    }
     // ---- every exponent of one factor (constructors and operators that reach fma)
     let mut fr_a = run_bounded(52, 2);
     fr_a.extend(gen_fracs(2));
